@@ -21,7 +21,7 @@ Proof. unfold mk_pinfo. cbn [pi_ts pi_pod]. now rewrite pod_timestamp_idem. Qed.
 Definition canon (cfg : config) (up : Z * pinfo) : Prop :=
   fst up = p_uid (pi_pod (snd up))
   /\ mk_pinfo cfg (pi_ts (snd up)) (pi_pod (snd up)) = snd up
-  /\ p_term (pi_pod (snd up)) = false /\ p_resv (pi_pod (snd up)) = false.
+  /\ terminated (pi_pod (snd up)) = false /\ p_resv (pi_pod (snd up)) = false.
 
 Definition ninfo_ok (cfg : config) (n : ninfo) : Prop :=
   NoDup (map fst (n_pods n))
@@ -75,7 +75,7 @@ Qed.
 Lemma assign_ok cfg now node p c : cache_ok cfg c -> cache_ok cfg (assign cfg now node p c).
 Proof.
   intro Hc. unfold assign.
-  destruct ((node =? 0) || p_term p || p_resv p) eqn:Eg; [exact Hc|].
+  destruct ((node =? 0) || terminated p || p_resv p) eqn:Eg; [exact Hc|].
   apply orb_false_elim in Eg. destruct Eg as [Eg Eresv].
   apply orb_false_elim in Eg. destruct Eg as [_ Eterm].
   apply cache_ok_aset; [exact Hc|].
@@ -148,7 +148,7 @@ Proof.
   { unfold c1. destruct (negb (old_node =? 0) && negb (old_node =? p_node p));
       [now apply unassign_ok|exact Hc]. }
   destruct (pod_info c1 (p_node p) (p_uid p)) as [o|]; [|now apply assign_ok].
-  destruct (p_term p); [now apply unassign_ok|].
+  destruct (terminated p); [now apply unassign_ok|].
   destruct (negb (spec_eqb p (pi_pod o)) || negb (cond_eqb p (pi_pod o)));
     [now apply assign_ok|exact Hc1].
 Qed.
@@ -163,6 +163,8 @@ Proof.
   - now apply unassign_ok.
   - now apply set_metric_ok.
   - now apply del_metric_ok.
+  - exact Hc.
+  - exact Hc.
   - exact Hc.
 Qed.
 
